@@ -27,7 +27,7 @@ ASSUMPTIONS = [
 
 PHRASES = ("Defaults to ", "defaults to ", "Default value is ", "Default: ")
 CORE_ALLOWED = ()
-FRONTIER_KNOBS = ("str_with_dot", "empty_str", "str_with_quote", "code_dot", "trailing_text")
+FRONTIER_KNOBS = ("empty_str", "str_with_quote", "trailing_text")
 FLOORS = {"negative_control": 0.1, "remove=True": 0.25}
 
 
@@ -49,7 +49,7 @@ VALUES_BY_TYPE = {
     "int": st.integers(-1000, 100000),
     "float": st.sampled_from((0.5, 2.0, 1e-07, -0.25, 0.001, 3.14, 100.0, 0.0, 1e10, -1.5e-05)),
     "bool": st.booleans(),
-    "str": st.sampled_from(domain.STR_WORDS + ("two words", "a b c")),
+    "str": st.sampled_from(domain.STR_WORDS + ("two words", "a b c", "a.b", "~/tensorflow_datasets", "model.h5")),
 }
 
 
@@ -65,12 +65,12 @@ def positive(draw, knob=None):
         value = draw(VALUES_BY_TYPE[kind])
         typ = draw(st.sampled_from((None, kind, "Optional[%s]" % kind, "Union[%s, np.ndarray]" % kind)))
         if kind == "str" and typ is None:
-            value = draw(st.sampled_from(domain.STR_WORDS))  # a bare multi-word string is not representable unquoted
+            value = draw(st.sampled_from(domain.STR_WORDS))  # a bare multi-word / dotted string is not representable unquoted
     elif kind == "none":
         value = None
         typ = draw(st.sampled_from((None, "Optional[int]", "Optional[str]", "Optional[np.ndarray]")))
     else:
-        value = domain.code(draw(st.sampled_from(("stdout", "foo(5)", "1 + 2", "foo(1.5)", "(1, 2)", "[1, 2]", "[]", "{'a': 1}", "(np, tf)"))))
+        value = domain.code(draw(st.sampled_from(("stdout", "foo(5)", "1 + 2", "foo(1.5)", "(1, 2)", "[1, 2]", "[]", "{'a': 1}", "(np, tf)") + domain.CODE_DOT)))
         typ = draw(st.sampled_from((None, "np.ndarray", "Callable")))
     if knob == "str_with_dot":
         value, typ = draw(st.sampled_from(("a.b", "~/tensorflow_datasets", "model.h5"))), draw(st.sampled_from(("str", "Optional[str]")))
